@@ -409,6 +409,10 @@ type c08Hist struct {
 	// sigCtx is appended to every violation signature of this history: the
 	// runtime-update histories name the kind of the last update there.
 	sigCtx string
+	// perName: fixed is read per name (the reload hand-over histories use several
+	// names with different fixed_domain_ttl entries, and the map changes from one
+	// generation to the next); otherwise fixed/fttl describe the one name of the history.
+	perName bool
 }
 
 func (h *c08Hist) tr(format string, a ...any) {
@@ -506,6 +510,30 @@ func (h *c08Hist) effTTL(ttl uint32) time.Duration {
 	return time.Duration(ttl) * time.Second
 }
 
+// effFor: effective TTL, whether a fixed_domain_ttl entry is configured for the
+// generation's name in the configuration in force, its value, a label for it and the
+// prefix of the evidence counters.
+func (h *c08Hist) effFor(g *c08Gen) (eff time.Duration, fixedOn bool, fttl int, label, ctr string) {
+	if !h.perName {
+		return h.effTTL(g.TTL), h.fixed != nil, h.fttl, h.cfg.Fixed, "deadline_matches_fixed_ttl_"
+	}
+	v, ok := h.fixed[strings.TrimSuffix(g.Key.LName, ".")]
+	if !ok {
+		return time.Duration(g.TTL) * time.Second, false, 0, "none", "handover_deadline_matches_fixed_ttl_"
+	}
+	switch {
+	case v == 0:
+		label = "zero"
+	case uint32(v) < g.TTL:
+		label = "shorter"
+	case uint32(v) > g.TTL:
+		label = "longer"
+	default:
+		label = "equal"
+	}
+	return time.Duration(v) * time.Second, true, v, label, "handover_deadline_matches_fixed_ttl_"
+}
+
 // learn reads the stored entry of a key and, the first time a generation is
 // seen, records its Deadline/OriginalDeadline and validates them against the
 // insert bracket.
@@ -539,28 +567,28 @@ func (h *c08Hist) learn(cc *c08Ctrl, ks string) (*c08Gen, *DnsCache) {
 
 func (h *c08Hist) validateDeadline(g *c08Gen) {
 	m := h.env.m
-	eff := h.effTTL(g.TTL)
+	eff, fixedOn, fttl, label, ctr := h.effFor(g)
 	in := func(d time.Duration) bool {
 		return !g.D.Before(g.T0.Add(d-c08Eps)) && !g.D.After(g.T1.Add(d+c08Eps))
 	}
 	switch {
 	case in(eff):
 		m.Count("deadline_matches_ttl", 1)
-		if h.fixed != nil {
-			m.Count("deadline_matches_fixed_ttl_"+h.cfg.Fixed, 1)
+		if fixedOn {
+			m.Count(ctr+label, 1)
 		}
-	case h.fixed != nil && g.Mixed && eff != time.Duration(g.TTL)*time.Second && in(time.Duration(g.TTL)*time.Second):
+	case fixedOn && g.Mixed && eff != time.Duration(g.TTL)*time.Second && in(time.Duration(g.TTL)*time.Second):
 		h.violate("fixed-ttl-ignored/mixed-case-name",
-			fmt.Sprintf("fixed_domain_ttl=%ds configured for this name but the entry inserted under a mixed-case spelling got Deadline = insert + upstream TTL %ds", h.fttl, g.TTL),
-			map[string]any{"key": g.Key.String(), "via": g.Via, "upstream_ttl": g.TTL, "fixed_ttl": h.fttl,
+			fmt.Sprintf("fixed_domain_ttl=%ds configured for this name but the entry inserted under a mixed-case spelling got Deadline = insert + upstream TTL %ds", fttl, g.TTL),
+			map[string]any{"key": g.Key.String(), "via": g.Via, "upstream_ttl": g.TTL, "fixed_ttl": fttl,
 				"deadline_minus_insert_ms": [2]float64{ms(g.D.Sub(g.T1)), ms(g.D.Sub(g.T0))}})
 	case g.D.After(g.T1.Add(eff + c08Eps)):
-		h.violate("deadline-later-than-ttl/fixed="+h.cfg.Fixed,
+		h.violate("deadline-later-than-ttl/fixed="+label,
 			fmt.Sprintf("stored Deadline is later than insert time + effective TTL (%v)", eff),
 			map[string]any{"key": g.Key.String(), "via": g.Via, "upstream_ttl": g.TTL,
 				"deadline_minus_insert_ms": [2]float64{ms(g.D.Sub(g.T1)), ms(g.D.Sub(g.T0))}})
 	default:
-		h.violate("deadline-earlier-than-ttl/fixed="+h.cfg.Fixed,
+		h.violate("deadline-earlier-than-ttl/fixed="+label,
 			fmt.Sprintf("stored Deadline is earlier than insert time + effective TTL (%v)", eff),
 			map[string]any{"key": g.Key.String(), "via": g.Via, "upstream_ttl": g.TTL,
 				"deadline_minus_insert_ms": [2]float64{ms(g.D.Sub(g.T1)), ms(g.D.Sub(g.T0))}})
@@ -1950,12 +1978,14 @@ func TestVerifC08(t *testing.T) {
 	nTypes := vk.Scale(64, 128)
 	nReconf := vk.Scale(360, 720)
 	nReconfSize := vk.Scale(120, 240)
+	nHandoverLRU := vk.Scale(240, 480)
+	nHandoverTiming := vk.Scale(300, 600)
+	extraHistories := 0
 
 	id := 0
 	for wave := 0; wave < waves; wave++ {
 		var wg sync.WaitGroup
-		launch := func(kind string, cfg c08Cfg, run func(h *c08Hist), maxDelay time.Duration) {
-			id++
+		launchID := func(id int, kind string, cfg c08Cfg, run func(h *c08Hist), maxDelay time.Duration) {
 			h := &c08Hist{env: env, id: id, kind: kind, cfg: cfg, seen: map[string]bool{}}
 			h.r = vk.NewRand(0xC08<<20 | uint64(id))
 			delay := time.Duration(h.r.Int64N(int64(maxDelay) + 1))
@@ -1966,6 +1996,10 @@ func TestVerifC08(t *testing.T) {
 				h.start = time.Now()
 				run(h)
 			}()
+		}
+		launch := func(kind string, cfg c08Cfg, run func(h *c08Hist), maxDelay time.Duration) {
+			id++
+			launchID(id, kind, cfg, run, maxDelay)
 		}
 		for i := 0; i < nSlack; i++ {
 			age := ages[i%len(ages)]
@@ -2017,6 +2051,22 @@ func TestVerifC08(t *testing.T) {
 				h.runReconfSize(ord)
 			}, 10*time.Second)
 		}
+		// reload hand-over histories (c08_handover_verif_test.go). Ids from a range of their own, so
+		// that every other history (the race phase included) keeps its id (= its random stream).
+		for i := 0; i < nHandoverLRU; i++ {
+			ord := wave*nHandoverLRU + i
+			extraHistories++
+			launchID(500000+wave*4000+i, "handover-lru", c08Cfg{Fixed: "none"}, func(h *c08Hist) { h.runHandoverLRU(ord) }, 10*time.Second)
+		}
+		for i := 0; i < nHandoverTiming; i++ {
+			ord := wave*nHandoverTiming + i
+			extraHistories++
+			launchID(502000+wave*4000+i, "handover-timing", c08Cfg{Fixed: "none"}, func(h *c08Hist) {
+				h.cfg = c08Cfg{Opt: h.r.IntN(2) == 0, Stale: []int{1, 2, 1, 2, 0}[h.r.IntN(5)], Max: []int{0, 0, 8}[h.r.IntN(3)],
+					Fixed: []string{"none", "shorter", "longer"}[(ord/3)%3]}
+				h.runHandoverTiming(ord)
+			}, 6*time.Second)
+		}
 		wg.Wait()
 		// race phase: runs alone (hot spinning workers need CPUs of their own)
 		{
@@ -2029,7 +2079,7 @@ func TestVerifC08(t *testing.T) {
 			m.Set("race_phase_seconds", time.Since(tr0).Seconds())
 		}
 	}
-	m.Set("histories", id)
+	m.Set("histories", id+extraHistories)
 	m.Set("documented_ttl_slack", "control/dns_cache.go:17-22 ttlRefreshThresholdSeconds = 15; control/dns_control.go comment above LookupDnsRespCache_")
 
 	// The stale path must have been observed for production-inserted entries
@@ -2054,5 +2104,23 @@ func TestVerifC08(t *testing.T) {
 		"reconf_probes_where_previous_config_would_differ",
 		"reconf_size_rounds_where_refused_candidate_would_differ", "reconf_size_limit_in_force_held", "reconf_size_unlimited_rounds",
 		"reconf_size_lru_pairs_checked", "reconf_timing_histories_completed", "reconf_size_histories_completed")
+	// reload hand-over: every shape, the size limit biting on the successor before / after restored
+	// entries were looked up again and by over-limit insertion, LRU pairs whose last uses lie before the
+	// hand-over and in different generations, carried entries probed inside and beyond their lifetime
+	// (also entries already expired at the hand-over), a changed window in force, successor's fixed TTL
+	m.Require("handover_via_clone-restore", "handover_via_self-restore", "handover_via_reuse",
+		"handover_config_changed", "handover_config_unchanged",
+		"handover_lru_successor_over_limit_at_first_janitor_janitor-before-any-lookup",
+		"handover_lru_successor_over_limit_at_first_janitor_overlimit-insertion-on-successor",
+		"handover_lru_successor_over_limit_at_first_janitor_some-looked-up-on-successor",
+		"handover_lru_evictions_on_successor", "handover_lru_pairs_checked",
+		"handover_lru_pairs_both_last_used_before_handover", "handover_lru_pairs_last_used_in_different_generations",
+		"handover_lru_second_handover", "handover_lru_histories_completed",
+		"handover_timing_probes_after_handover", "handover_probes_of_carried_entry_inside_lifetime",
+		"handover_probes_of_carried_entry_beyond_lifetime", "handover_probes_of_entry_expired_before_handover",
+		"handover_probes_where_predecessor_config_would_differ", "handover_neighbour_probes_on_successor",
+		"handover_successor_fixed_ttl_checked", "handover_successor_fixed_ttl_differs_from_predecessor",
+		"handover_deadline_matches_fixed_ttl_shorter", "handover_deadline_matches_fixed_ttl_longer",
+		"handover_timing_second_handover", "handover_timing_histories_completed")
 	m.Done(t)
 }
